@@ -166,7 +166,13 @@ def int_range(F, n, depth=0):
     if k == "ilit":
         return int(n["val"]), int(n["val"])
     if k in ("cast", "paren") or (k == "ilist" and len(n.get("e", [])) == 1):
-        return int_range(F, n.get("e") if k != "ilist" else n["e"][0], depth + 1)
+        inner = int_range(F, n.get("e") if k != "ilist" else n["e"][0], depth + 1)
+        if inner is None and k == "cast" and n.get("ck") == "IntegralCast":
+            # an operand promoted from a narrower integer type can only hold that type's values
+            w = ev.INT_WIDTH.get(strip_cvref(F.T(n.get("from", -1)) or ""))
+            if w and w[0] < 32:
+                return (-(1 << (w[0] - 1)), (1 << (w[0] - 1)) - 1) if w[1] else (0, (1 << w[0]) - 1)
+        return inner
     if k == "call" and "f" in n:
         g = F.fns.get(n["f"])
         if g is not None and g["sname"] in ("operator[]", "at") and re.match(r"std::array<", g.get("qname", "")):
